@@ -69,4 +69,16 @@ PROPS = {
         "not_decided": ["float32 representability (collapse of very close bounds, overflow of huge ones)", "category classes without any field (the statement does not determine them)"],
         "assumptions": COMMON_ASSUMPTIONS + ["symbolic float values are finite reals; +inf, -inf and nan are separate concrete cases", "ground instances of Real.exp_log, Real.log_exp, Real.exp_lt_exp, Real.log_lt_log (Mathlib) for the logarithmic scale"],
     },
+    "C07": {
+        "contracts": [
+            "lcm.input_processing.create_params_template.create_params_template",
+            "lcm.input_processing.process_model.process_model",
+        ],
+        "families": {
+            "quick": "Skel-quick: 9 model skeletons (consumption-saving, retirement filter, two stochastic states with permuted dependency orders incl. _period, fully discrete, log + linear continuous states, period-dependent filter through an auxiliary function + two filters + two constraints, discrete choices only, two continuous choices, restricted + unrestricted discrete choices); shared parameter names across functions; all grid sizes/bounds, parameter values and user functions symbolic.",
+            "thorough": "Skel-thorough: the 9 skeletons plus reversed declaration orders of states, choices and functions (32 skeletons).",
+        },
+        "not_decided": ["model structures outside the skeleton family", "'beta is the only discount factor' is decided by the period-step contract of C01"],
+        "assumptions": COMMON_ASSUMPTIONS + ["user functions are pure, uninterpreted functions of their bound arguments"],
+    },
 }
